@@ -101,6 +101,9 @@ pub struct ScenarioE {
     pub consumers_lagging: Vec<bool>,
     pub kill_exchange_at: Option<u64>,
     pub tokio_seed: u64,
+    /// the instruments carry a specification (tick size, quantity increment, minimum notional)
+    #[serde(default)]
+    pub with_spec: bool,
 }
 
 pub struct SimE;
@@ -181,7 +184,7 @@ fn trade_sum(t: &barter_execution::trade::Trade<barter_instrument::asset::QuoteA
         price: t.price,
         qty: t.quantity,
         fees: t.fees.fees,
-        t_us: (t.time_exchange - epoch()).num_microseconds().unwrap_or(0),
+        t_us: (t.time_exchange - epoch()).num_nanoseconds().unwrap_or(0),
     }
 }
 
@@ -190,8 +193,9 @@ fn bal_sum(b: &AssetBalance<AssetNameExchange>) -> (String, Decimal, Decimal) {
 }
 
 fn mk_clock(start: tokio::time::Instant, op: i64, skew_ms: i64) -> impl Fn() -> DateTime<Utc> + Clone + Sync + Send {
-    // (skewed) virtual time in ms, with the operation id in the microsecond digits (request tag)
-    move || ts(start.elapsed().as_millis() as i64 + skew_ms) + chrono::TimeDelta::microseconds(op)
+    // (skewed) virtual time in ms, with the operation id in the sub-millisecond digits (request tag,
+    // in nanoseconds so that sessions of more than a thousand operations can be tagged)
+    move || ts(start.elapsed().as_millis() as i64 + skew_ms) + chrono::TimeDelta::nanoseconds(op)
 }
 
 fn inst_name(i: usize) -> String {
@@ -201,7 +205,8 @@ fn inst_name(i: usize) -> String {
     }
 }
 
-fn mock_instruments(n: usize) -> FnvHashMap<InstrumentNameExchange, Instrument<ExchangeId, AssetNameExchange>> {
+fn mock_instruments(n: usize, with_spec: bool) -> FnvHashMap<InstrumentNameExchange, Instrument<ExchangeId, AssetNameExchange>> {
+    use barter_instrument::instrument::spec::{InstrumentSpec, InstrumentSpecNotional, InstrumentSpecPrice, InstrumentSpecQuantity, OrderQuantityUnits};
     (0..n.clamp(1, 3))
         .map(|i| {
             let (b, q) = PAIRS_E[i];
@@ -218,7 +223,13 @@ fn mock_instruments(n: usize) -> FnvHashMap<InstrumentNameExchange, Instrument<E
                     },
                     quote: InstrumentQuoteAsset::UnderlyingQuote,
                     kind: InstrumentKind::Spot,
-                    spec: None,
+                    // (the statement's ledger rules do not mention lot sizes: a specification must
+                    // not change what is debited or filled)
+                    spec: with_spec.then(|| InstrumentSpec {
+                        price: InstrumentSpecPrice { min: Decimal::ZERO, tick_size: Decimal::new(1, 2) },
+                        quantity: InstrumentSpecQuantity { unit: OrderQuantityUnits::Contract, min: Decimal::ZERO, increment: Decimal::ONE },
+                        notional: InstrumentSpecNotional { min: Decimal::ZERO },
+                    }),
                 },
             )
         })
@@ -383,14 +394,27 @@ fn judge(sc: &ScenarioE, obs: &Obs, sell_spends_quote: bool, stats: Option<&mut 
                         .filter(|o| {
                             // exchange time of a fill = request time (+ op tag in the microsecond
                             // digits) + half the configured latency
-                            let t_fill_us = ((sc.ops[*o].at_ms + sc.latency_ms / 2) as i64 + sc.ops[*o].skew_ms) * 1000 + *o as i64;
-                            t_fill_us >= since_ms * 1000
+                            let t_fill_ns = ((sc.ops[*o].at_ms + sc.latency_ms / 2) as i64 + sc.ops[*o].skew_ms) * 1_000_000 + *o as i64;
+                            t_fill_ns >= since_ms * 1_000_000
                         })
                         .collect();
                     if got != exp {
-                        return Some(("L5_read_reflects_ledger".into(), op, format!("fetch_trades(since {since_ms} ms) at position {pos}: got fills of ops {got:?}, ledger {exp:?}")));
+                        let first = got.iter().zip(exp.iter()).position(|(a, b)| a != b).unwrap_or(got.len().min(exp.len()));
+                        let (g, e): (Vec<_>, Vec<_>) = if exp.len() > 40 {
+                            (got.iter().skip(first).take(5).collect(), exp.iter().skip(first).take(5).collect())
+                        } else {
+                            (got.iter().collect(), exp.iter().collect())
+                        };
+                        return Some((
+                            "L5_read_reflects_ledger".into(),
+                            op,
+                            format!("fetch_trades(since {since_ms} ms) at position {pos}: got {} fills, ledger {}; from the first difference (index {first}) got fills of ops {g:?}, ledger {e:?}", got.len(), exp.len()),
+                        ));
                     }
                     probe("trade_read_checked");
+                    if exp.len() > 1_000 {
+                        probe("session_with_over_1000_fills");
+                    }
                 }
             }
             OpKindE::Snapshot => {
@@ -538,7 +562,10 @@ impl Sim for SimE {
                 _ => rng.range(500, if a == 2 { 2_000_000 } else { 20_000 }),
             })
             .collect();
-        let n = 3 + rng.usize(25);
+        // once in a while a long session: more than a thousand accepted orders on one account
+        let long = sub == 0 && rng.chance(1, 500);
+        let init_bal_c: Vec<i64> = if long { vec![1_000_000_000; 3] } else { init_bal_c };
+        let n = if long { 1_400 + rng.usize(600) } else { 3 + rng.usize(25) };
         let mut ops = Vec::new();
         let mut t = 0u64;
         // rough planner-side balance (buys only) to aim at the affordability boundary
@@ -547,7 +574,7 @@ impl Sim for SimE {
             if !rng.chance(1, 3) {
                 t += *rng.pick(&[0u64, 1, 1, latency_ms, latency_ms + 1, 7]);
             }
-            let kind = match rng.below(10) {
+            let kind = match if long { 2 + 4 * rng.below(40).min(2) } else { rng.below(10) } {
                 0 => OpKindE::FetchBalances,
                 1 => OpKindE::FetchTrades {
                     since_ms: if sub == 1 && rng.chance(1, 3) { rng.range(0, 60) } else { rng.range(0, t as i64 + 5) },
@@ -559,7 +586,7 @@ impl Sim for SimE {
                     let buy = rng.chance(3, 5);
                     let qty_m = *rng.pick(&[1000i64, 1000, 500, 2000, 250, 125, 333]);
                     let mut price_c = rng.range(100, 30_000);
-                    if buy && inst < n_inst && rng.chance(1, 3) {
+                    if buy && inst < n_inst && !long && rng.chance(1, 3) {
                         // aim at the exactly-affordable boundary and one cent beyond it
                         let q = PAIRS_E[inst].1;
                         let denom = Decimal::new(qty_m, 3) * (Decimal::ONE + Decimal::new(fee_bp, 4));
@@ -599,6 +626,10 @@ impl Sim for SimE {
                 skew_ms: if sub == 1 && rng.chance(1, 4) { *rng.pick(&[-3i64, 5, 40, 5_000]) } else { 0 },
             });
         }
+        if long {
+            ops.push(OpE { at_ms: t + 2 * latency_ms + 1, kind: OpKindE::FetchTrades { since_ms: 0 }, drop_after_ms: None, skew_ms: 0 });
+            ops.push(OpE { at_ms: t + 2 * latency_ms + 1, kind: OpKindE::Snapshot, drop_after_ms: None, skew_ms: 0 });
+        }
         let n_cons = 1 + rng.usize(3);
         ScenarioE {
             latency_ms,
@@ -610,6 +641,7 @@ impl Sim for SimE {
             consumers_lagging: (0..n_cons).map(|c| sub == 1 && c > 0 && rng.chance(1, 2)).collect(),
             kill_exchange_at: if sub == 1 && rng.chance(1, 10) { Some(rng.below(t + 2)) } else { None },
             tokio_seed: rng.next_u64(),
+            with_spec: rng.chance(1, 3),
         }
     }
 
@@ -642,7 +674,7 @@ impl Sim for SimE {
                 latency_ms: sc.latency_ms,
                 fees_percent: Decimal::new(sc.fee_bp, 4),
             };
-            let exchange = MockExchange::new(config, exch_rx, event_tx, mock_instruments(n_inst));
+            let exchange = MockExchange::new(config, exch_rx, event_tx, mock_instruments(n_inst, sc.with_spec));
             let exchange_handle = tokio::spawn(exchange.run());
 
             // pass-through tap: logs the exchange's acceptance order (FIFO of its request channel)
@@ -650,7 +682,7 @@ impl Sim for SimE {
             let accept2 = accept.clone();
             let tap = tokio::spawn(async move {
                 while let Some(req) = tap_rx.recv().await {
-                    let op = (req.time_request - epoch()).num_microseconds().unwrap_or(0).rem_euclid(1000) as usize;
+                    let op = (req.time_request - epoch()).num_nanoseconds().unwrap_or(0).rem_euclid(1_000_000) as usize;
                     accept2.lock().unwrap().push(AcceptRec { op });
                     if exch_tx.send(req).is_err() {
                         break;
@@ -672,7 +704,7 @@ impl Sim for SimE {
             // stream consumers
             let mut consumer_handles = Vec::new();
             for lagging in &sc.consumers_lagging {
-                let c = mk_client(999, 0);
+                let c = mk_client(999_999, 0);
                 let lagging = *lagging;
                 consumer_handles.push(tokio::spawn(async move {
                     let mut stream = c.account_stream(&[], &[]).await.expect("stream");
@@ -702,7 +734,7 @@ impl Sim for SimE {
             // operations: one task (and one client instance) each, so several can be outstanding
             let results: Arc<Mutex<BTreeMap<usize, (u64, OpResult)>>> = Arc::new(Mutex::new(BTreeMap::new()));
             let mut op_handles = Vec::new();
-            for (k, op) in sc.ops.iter().enumerate().take(990) {
+            for (k, op) in sc.ops.iter().enumerate().take(990_000) {
                 let c = mk_client(k as i64, op.skew_ms);
                 let kind = op.kind.clone();
                 let at = op.at_ms;
@@ -815,7 +847,7 @@ impl Sim for SimE {
             tokio::time::sleep(Duration::from_millis(2 * sc.latency_ms + 5)).await;
             // final reads by the simulator
             let (final_balances, final_trades) = if sc.kill_exchange_at.is_none() {
-                let c = mk_client(998, 0);
+                let c = mk_client(999_998, 0);
                 let fb = c.fetch_balances().await.ok().map(|v| v.iter().map(bal_sum).collect::<Vec<_>>());
                 let ft = c.fetch_trades(ts(-3_600_000)).await.ok().map(|v| v.iter().map(trade_sum).collect::<Vec<_>>());
                 (fb, ft)
@@ -1054,12 +1086,13 @@ impl Sim for SimE {
             "consumer_kept_up_saw_all",
             "lagging_consumer_stream_ended",
             "offline_error_after_shutdown",
+            "session_with_over_1000_fills",
         ]
     }
     fn assumptions(&self) -> Vec<String> {
         vec![
             "the linearization point of every operation is its position in the exchange's request channel, observed through a pass-through tap (adds one scheduling hop, preserves FIFO)".into(),
-            "operations are tagged through the microsecond digits of their request timestamp and the order's strategy id".into(),
+            "operations are tagged through the sub-millisecond (nanosecond) digits of their request timestamp and the order's strategy id".into(),
             "notification order across different orders is not constrained; within one order balance-before-trade is not asserted either, only multiplicity and content".into(),
         ]
     }
